@@ -238,12 +238,21 @@ Theorem C16_int_from_small_prim : forall k n v r, 1 <= k <= 64 -> 0 <= v < 2 ^ k
 Proof. exact int_from_small_spec. Qed.
 Print Assumptions C16_int_from_small_prim.
 
-(** from_i128 has no width assertion: the result is the signed value modulo 2^(64 n) -- exact for n >= 2,
-    silently truncated for n = 1 (see C16_int_from_i128_truncates_refuted) *)
-Theorem C16_int_from_i128_partial : forall n v, 0 <= v < 2 ^ 128 ->
-  wf (int_from_i128 n v) /\ length (int_from_i128 n v) = n /\ eval (int_from_i128 n v) = sp_signed 128 v mod Bn n.
+(** from_i128: panics exactly for fewer than two limbs; otherwise the two's complement encoding of the signed
+    value at the target width, and the signed value is preserved *)
+Theorem C16_int_from_i128 : forall n v r, 0 <= v < 2 ^ 128 -> int_from_i128 n v = Some r ->
+  (2 <= n)%nat /\ wf r /\ length r = n /\ eval r = sp_signed 128 v mod Bn n.
 Proof. exact int_from_i128_spec. Qed.
-Print Assumptions C16_int_from_i128_partial.
+Print Assumptions C16_int_from_i128.
+
+Theorem C16_int_from_i128_panics_iff : forall n v, int_from_i128 n v = None <-> (n < 2)%nat.
+Proof. exact int_from_i128_panics. Qed.
+Print Assumptions C16_int_from_i128_panics_iff.
+
+Theorem C16_int_from_i128_value : forall n v r, 0 <= v < 2 ^ 128 -> int_from_i128 n v = Some r ->
+  seval r = sp_signed 128 v.
+Proof. exact int_from_i128_value. Qed.
+Print Assumptions C16_int_from_i128_value.
 
 (** serde payload (bincode framing of the little-endian bytes): deserialize inverts serialize *)
 Theorem C16_serde_roundtrip : forall ls, wf ls -> Z.of_nat (8 * length ls) < B ->
@@ -257,8 +266,19 @@ Theorem C16_serde_de_strict : forall n bs r, wfd 256 bs -> uint_serde_de n bs = 
 Proof. exact serde_de_strict. Qed.
 Print Assumptions C16_serde_de_strict.
 
-(** BoxedUint::from_be_hex at a precision of n whole limbs behaves as the fixed-width decoder (so it is strict
-    and positional by C16_hex_decode_strict_be); other precisions: see C16_boxed_from_be_hex_precision_refuted *)
+(** BoxedUint::from_be_hex at ANY precision p: exactly 16 * ceil(p/64) hex characters are accepted; the result
+    has ceil(p/64) limbs and the positional value; at whole-limb precisions it is the fixed-width decoder *)
+Theorem C16_boxed_hex_decode_strict : forall p cs, wfd 256 cs ->
+  let n := Z.to_nat ((p + 63) / 64) in
+  match boxed_from_be_hex p cs with
+  | HexLen => length cs <> (16 * n)%nat
+  | HexInvalid => length cs = (16 * n)%nat /\ hexvals cs = None
+  | HexOk r => length cs = (16 * n)%nat /\
+               exists ds, hexvals cs = Some ds /\ wf r /\ length r = n /\ eval r = evalb 16 (rev ds)
+  end.
+Proof. exact boxed_from_be_hex_spec. Qed.
+Print Assumptions C16_boxed_hex_decode_strict.
+
 Theorem C16_boxed_hex_whole_limbs : forall n cs, boxed_from_be_hex (64 * Z.of_nat n) cs = uint_from_be_hex n cs.
 Proof. exact boxed_from_be_hex_whole_limbs. Qed.
 Print Assumptions C16_boxed_hex_whole_limbs.
@@ -268,28 +288,52 @@ Theorem C16_boxed_le_roundtrip : forall ls, wf ls -> (1 <= length ls)%nat ->
 Proof. exact boxed_le_roundtrip. Qed.
 Print Assumptions C16_boxed_le_roundtrip.
 
-(** * Behaviours of /repo, reproduced by the faithful model, that CONTRADICT the property (genuine defects) *)
-Theorem C16_nonzero_from_le_byte_array_refuted :
-  run_both "nonzero.from_le_byte_array" [[1; 0; 0; 0; 0; 0; 0; 0]; [1]] = Some (Val [[2 ^ 56]], Val [[1]]).
-Proof. exact nonzero_le_byte_array_refuted. Qed.
-Print Assumptions C16_nonzero_from_le_byte_array_refuted.
+(** NonZero decoders (from_{be,le}_bytes, from_{be,le}_byte_array): positional decoding in the named byte
+    order; panic exactly at a wrong size, none exactly for the value zero *)
+Theorem C16_nonzero_from_le : forall n bs, wfd 256 bs ->
+  match nonzero_from_le n bs with
+  | PanicV => length bs <> (8 * n)%nat
+  | NoneV => length bs = (8 * n)%nat /\ evalb 256 bs = 0
+  | Val [r] => length bs = (8 * n)%nat /\ wf r /\ length r = n /\ eval r = evalb 256 bs /\ eval r <> 0
+  | _ => False
+  end.
+Proof. exact nonzero_from_le_spec. Qed.
+Print Assumptions C16_nonzero_from_le.
 
-Theorem C16_odd_from_le_hex_refuted :
-  run_both "odd.from_le_hex" [[48; 50; 48; 48; 48; 48; 48; 48; 48; 48; 48; 48; 48; 48; 48; 49]; [1]]
-  = Some (Val [[2 ^ 57 + 1]], PanicV).
-Proof. exact odd_le_hex_refuted. Qed.
-Print Assumptions C16_odd_from_le_hex_refuted.
+Theorem C16_nonzero_from_be : forall n bs, wfd 256 bs ->
+  match nonzero_from_be n bs with
+  | PanicV => length bs <> (8 * n)%nat
+  | NoneV => length bs = (8 * n)%nat /\ evalb 256 (rev bs) = 0
+  | Val [r] => length bs = (8 * n)%nat /\ wf r /\ length r = n /\ eval r = evalb 256 (rev bs) /\ eval r <> 0
+  | _ => False
+  end.
+Proof. exact nonzero_from_be_spec. Qed.
+Print Assumptions C16_nonzero_from_be.
 
-Theorem C16_int_from_i128_truncates_refuted :
-  int_from_i128 1 (2 ^ 64) = [0] /\ run_both "int.from_prim" [[0; 1]; [128]; [1]] = Some (Val [[0]], PanicV).
-Proof. exact int_from_i128_truncates_refuted. Qed.
-Print Assumptions C16_int_from_i128_truncates_refuted.
+(** Odd hex decoders: strict positional hex decoding in the named byte order, accepted exactly when the value is odd *)
+Theorem C16_odd_from_le_hex : forall n cs, wfd 256 cs ->
+  match odd_from_le_hex n cs with
+  | Val [r] => length cs = (16 * n)%nat /\
+               exists ds, hexvals cs = Some ds /\ wf r /\ length r = n /\
+                          eval r = evalb 256 (nib_pairs ds) /\ Z.odd (eval r) = true
+  | PanicV => length cs <> (16 * n)%nat \/ hexvals cs = None \/
+              exists ds, hexvals cs = Some ds /\ Z.odd (evalb 256 (nib_pairs ds)) = false
+  | _ => False
+  end.
+Proof. exact odd_from_le_hex_spec. Qed.
+Print Assumptions C16_odd_from_le_hex.
 
-Theorem C16_boxed_from_be_hex_precision_refuted :
-  boxed_from_be_hex 100 (repeat 48 16) = HexOk [0] /\ boxed_from_be_hex 100 (repeat 48 32) = HexLen /\
-  boxed_from_be_hex 63 [] = HexOk [].
-Proof. exact boxed_from_be_hex_precision_refuted. Qed.
-Print Assumptions C16_boxed_from_be_hex_precision_refuted.
+Theorem C16_odd_from_be_hex : forall n cs, wfd 256 cs ->
+  match odd_from_be_hex n cs with
+  | Val [r] => length cs = (16 * n)%nat /\
+               exists ds, hexvals cs = Some ds /\ wf r /\ length r = n /\
+                          eval r = evalb 16 (rev ds) /\ Z.odd (eval r) = true
+  | PanicV => length cs <> (16 * n)%nat \/ hexvals cs = None \/
+              exists ds, hexvals cs = Some ds /\ Z.odd (evalb 16 (rev ds)) = false
+  | _ => False
+  end.
+Proof. exact odd_from_be_hex_spec. Qed.
+Print Assumptions C16_odd_from_be_hex.
 
 (** non-vacuity: concrete encodings / decodings, an invalid character next to each accepted range,
     a precision error at exactly 2^precision, sign extension of -2 *)
@@ -300,5 +344,10 @@ Example C16_nonvacuous :
   map decode_nibble [47; 58; 64; 71; 96; 103; 128; 255] = repeat 65535 8 /\
   boxed_from_slice true [2; 0] 9 = ErrV E_Precision /\ boxed_from_slice true [1; 255] 9 = Val [[511]] /\
   boxed_from_slice true [0; 1; 255] 9 = ErrV E_InputSize /\
-  int_resize [MAXW - 1] 2 = [MAXW - 1; MAXW] /\ uint_split_mixed [1; 2; 3] 1 2 = ([1], [2; 3]).
+  int_resize [MAXW - 1] 2 = [MAXW - 1; MAXW] /\ uint_split_mixed [1; 2; 3] 1 2 = ([1], [2; 3]) /\
+  nonzero_from_le 1 [1; 0; 0; 0; 0; 0; 0; 0] = Val [[1]] /\ nonzero_from_le 1 [0; 0; 0; 0; 0; 0; 0; 0] = NoneV /\
+  odd_from_le_hex 1 [48; 50; 48; 48; 48; 48; 48; 48; 48; 48; 48; 48; 48; 48; 48; 49] = PanicV /\
+  odd_from_le_hex 1 [48; 49; 48; 48; 48; 48; 48; 48; 48; 48; 48; 48; 48; 48; 48; 50] = Val [[2 ^ 57 + 1]] /\
+  int_from_i128 1 (2 ^ 64) = None /\ int_from_i128 2 (2 ^ 128 - 2) = Some [MAXW - 1; MAXW] /\
+  boxed_from_be_hex 100 (repeat 48 32) = HexOk [0; 0] /\ boxed_from_be_hex 100 (repeat 48 16) = HexLen.
 Proof. vm_compute. repeat split; reflexivity. Qed.
